@@ -500,8 +500,7 @@ Proof.
   end.
   { destruct (pi_search (st_pindex s) ev); try exact HJ. apply find_ids_idx_J; exact HJ. }
   cbn [fst] in H.
-  destruct res as [l|e|w|]; try exact H.
-  destruct (check_rules l); exact H.
+  destruct res as [l|e|w|]; exact H.
 Qed.
 
 Lemma st_clear_J s : J s -> J (fst (st_clear s)).
@@ -783,11 +782,12 @@ Proof.
 Qed.
 
 Lemma check_rules_ok l :
-  (forall id body, In (id, body) l -> exists r, rule_from_map body = Ok r) -> check_rules l = Ok tt.
+  (forall id body, In (id, body) l -> exists r, rule_from_map body = Ok r) -> check_rules l = l.
 Proof.
-  induction l as [|[i body] r IH]; intros H; cbn [check_rules]; [reflexivity|].
-  destruct (H i body (or_introl eq_refl)) as (r0 & Hr). rewrite Hr. cbn [obind].
-  apply IH. intros id b Hin. apply (H id b). right; exact Hin.
+  unfold check_rules.
+  induction l as [|[i body] r IH]; intros H; cbn [filter snd]; [reflexivity|].
+  destruct (H i body (or_introl eq_refl)) as (r0 & Hr). unfold rule_parses at 1. rewrite Hr.
+  f_equal. apply IH. intros id b Hin. apply (H id b). right; exact Hin.
 Qed.
 
 (** an id returned by the index search is a stored non-scheduled rule *)
@@ -1433,7 +1433,8 @@ Proof. vm_compute. repeat split; reflexivity. Qed.
     [st_add]; with an empty schedule string also by [rule_from_map]) is never
     indexed, so the indexed state never dispatches it, while the linear state
     does.  With a non-empty schedule the linear state's RuleFromMap check
-    fails and the whole event fails, blocking every other rule.  (Hence
+    fails and the candidate is skipped (before the repair of D53 the whole
+    event failed, blocking every other rule).  (Hence
     [scheduled_have_no_when] in the linear theorems.) *)
 Definition cx2_body (sched : string) : json :=
   JObj [("action", JObj [("code", JStr "x")]); ("schedule", JStr sched);
@@ -1447,7 +1448,7 @@ Lemma scheduled_with_when_linear_only_counterexample :
   cx_dispatch Indexed "r2" (cx2_fact "") cx2_ev = (Ok [], Some (Ok [])) /\
   cx_dispatch Linear "r2" (cx2_fact "") cx2_ev = (Ok [("r2", cx2_body "")], Some (Ok [("r2", [[]])])) /\
   cx_dispatch Indexed "r3" (cx2_fact "* * * * *") cx2_ev = (Ok [], Some (Ok [])) /\
-  cx_dispatch Linear "r3" (cx2_fact "* * * * *") cx2_ev = (Err "syntax", None).
+  cx_dispatch Linear "r3" (cx2_fact "* * * * *") cx2_ev = (Ok [], Some (Ok [])).
 Proof. vm_compute. repeat split; reflexivity. Qed.
 
 (** * Part 8: reload, and the semantic reading of the characterisation *)
